@@ -114,6 +114,22 @@ def ik_same(a, b):
     """identity of item kinds (only used for the `defined` map keys: ty(item_kind))"""
     return lazy_atom(a.kid('!ty', 'wac_types::Type')).t if isinstance(a, Lazy) else None
 
+_TYIDS = {}
+REFS = z3.Function('type_refs', z3.IntSort(), z3.IntSort(), z3.BoolSort())      # refs(t, d): type t references (transitively) the defined type d
+
+def type_ident(x):
+    """identity (Int) of a Type / ItemKind-type value: lazily instantiated ones by their atom, `Type::Value(ValueType::Defined(id))`
+    aggregates built by the MIR by the atom of the id token"""
+    if isinstance(x, Lazy):
+        if x.ty and 'ItemKind' in x.ty: x = x.kid('!ty', 'wac_types::Type')
+        return lazy_atom(x).t
+    if isinstance(x, Enum):
+        for fs in x.vars.values():
+            if fs: return type_ident(fs[0])
+    k = '_tyid%d' % id(x)
+    if k not in _TYIDS: _TYIDS[k] = (x, Int(k))
+    return _TYIDS[k][1]
+
 def RI(v, name_eq_ty=None):
     """representation invariant as a dict clause-name -> formula"""
     nn, ne = v.nn, v.ne; A = v.ARGS
@@ -131,10 +147,23 @@ def RI(v, name_eq_ty=None):
     ek = []
     for (l, a, b, k, idx) in E:
         src_is_instance = v.sel(a, lambda i: (v.ik(i).disc == bv64(IK_INSTANCE)) if isinstance(v.ik(i), (Lazy, Enum)) else BoolVal(True), BoolVal(False))
-        ek.append(Implies(l, And(Implies(k == bv64(E_ALIAS), And(kindsel(b) == bv64(ALIAS), src_is_instance, ULT(a, b))),
-                                 Implies(k == bv64(E_ARG), And(kindsel(b) == bv64(INST), Or(kindsel(a) == bv64(IMP), kindsel(a) == bv64(ALIAS)))),
+        same_pkg = And(v.sel(a, v.haspkg, BoolVal(False)) == v.sel(b, v.haspkg, BoolVal(False)),
+                       Implies(v.sel(a, v.haspkg, BoolVal(False)),
+                               And(v.sel(a, lambda i: v.pkgid(i)[0] if v.pkgid(i) else bv64(0), bv64(0)) == v.sel(b, lambda i: v.pkgid(i)[0] if v.pkgid(i) else bv64(0), bv64(0)),
+                                   v.sel(a, lambda i: v.pkgid(i)[1] if v.pkgid(i) else bv64(0), bv64(0)) == v.sel(b, lambda i: v.pkgid(i)[1] if v.pkgid(i) else bv64(0), bv64(0)))))
+        ek.append(Implies(l, And(Implies(k == bv64(E_ALIAS), And(kindsel(b) == bv64(ALIAS), src_is_instance, same_pkg)),
+                                 Implies(k == bv64(E_ARG), kindsel(b) == bv64(INST)),
                                  Implies(k == bv64(E_DEP), And(kindsel(a) == bv64(DEF), kindsel(b) == bv64(DEF))))))
     cs['edge_kinds'] = And(ek)
+    # restrictions that make a pre-state buildable by the state realiser (assumed for pre-states only, never required of post-states)
+    rz = []
+    for (l, a, b, k, idx) in E:
+        rz.append(Implies(And(l, k == bv64(E_ALIAS)), ULT(a, b)))                       # an alias node is created after its source (no index reuse)
+        rz.append(Implies(And(l, k == bv64(E_ARG)), Or(kindsel(a) == bv64(IMP), kindsel(a) == bv64(ALIAS))))   # function-typed argument sources
+        if idx is not None: rz.append(Implies(And(l, k == bv64(E_ALIAS)), ULT(idx, bv64(2))))
+    for (x, y) in itertools.combinations(E, 2):
+        rz.append(Not(And(x[0], y[0], x[3] == bv64(E_ALIAS), y[3] == bv64(E_ARG), x[1] == y[1])))   # an instance-typed import is not also a function argument
+    cs['!realisable'] = And(rz) if rz else BoolVal(True)
     # satisfied set = incoming argument edges, at most one per index
     sat = []
     for i in range(nn):
@@ -169,6 +198,12 @@ def RI(v, name_eq_ty=None):
             for c_ in range(nn):
                 if c_ in (a_, b_): continue
                 tr.append(Implies(And(dep(bv32(a_), bv32(b_)), dep(bv32(b_), bv32(c_))), dep(bv32(a_), bv32(c_))))
+    # dependency edges mirror the (transitive, acyclic) reference relation between the defined types: edge a -> b  <=>  type(b) references type(a)
+    for a_ in range(nn):
+        for b_ in range(nn):
+            if a_ == b_: continue
+            both = And(v.live(a_), v.live(b_), v.kind(a_) == bv64(DEF), v.kind(b_) == bv64(DEF))
+            tr.append(Implies(both, dep(bv32(a_), bv32(b_)) == REFS(type_ident(v.ik(b_)), type_ident(v.ik(a_)))))
     cs['dependencies'] = And(tr) if tr else BoolVal(True)
     # maps
     imps = v.map_entries(v.imports); exps = v.map_entries(v.exports); defs = v.map_entries(v.defined)
@@ -182,12 +217,12 @@ def RI(v, name_eq_ty=None):
         im.append(Implies(And(v.live(i), v.kind(i) == bv64(IMP)), Or([And(l, atom(k) == v.impname(i), n == bv32(i)) for (l, k, n) in imps]) if imps else BoolVal(False)))
     cs['imports_map'] = And(im) if im else BoolVal(True)
     ex = distinct(exps, atom)
-    for (l, k, n) in exps: ex.append(Implies(l, And(inr(n), livesel(n))))
+    for (l, k, n) in exps: ex.append(Implies(l, And(inr(n), livesel(n), v.sel(n, v.hasexp, BoolVal(False)))))      # an exported node remembers (one of) its export names
     for i in range(nn):
         if v.expname(i) is None: continue
         ex.append(Implies(And(v.live(i), v.hasexp(i)), Or([And(l, atom(k) == v.expname(i), n == bv32(i)) for (l, k, n) in exps]) if exps else BoolVal(False)))
     cs['exports_map'] = And(ex) if ex else BoolVal(True)
-    tyid = lambda x: lazy_atom(x if x.name.endswith('!ty') or 'defkey' in x.name else x.kid('!ty', 'wac_types::Type')).t
+    tyid = type_ident
     de = distinct(defs, lambda k: tyid(k))
     for (l, k, n) in defs:
         de.append(Implies(l, And(inr(n), livesel(n), kindsel(n) == bv64(DEF), v.sel(n, lambda i: tyid(v.ik(i)) == tyid(k), BoolVal(False)))))
@@ -240,6 +275,27 @@ def make_engine(chk, fns, decls, ARGS, rec):
     def m_cname_new(ctx): return ctx.ret(models.result(Bool(f'valid_name{fresh_id()}'), Opaque('ComponentName'), Opaque('BinaryReaderError')))
     def m_cname_kind(ctx): return ctx.ret(Lazy(f'namekind{fresh_id()}', 'ComponentNameKind'))
     def m_types_contains(ctx): return ctx.ret(BoolVal(True))
+    def m_type_eq(ctx):
+        e = type_ident(ctx.deref(ctx.args[0])) == type_ident(ctx.deref(ctx.args[1]))
+        return ctx.ret(Not(e) if ctx.callee.endswith('::ne') else e)
+    def m_visit(ctx):
+        """Type::visit_defined_types(ty, types, closure): the closure is called for every defined type (transitively) referenced by ty;
+        the candidates are the keys of the `defined` map, the type being defined and one undefined type"""
+        ty = ctx.deref(ctx.args[0]); clo = ctx.args[2]; eng_ = ctx.eng; dst, tgt = ctx.dst, ctx.tgt
+        universe = list(eng_.type_universe)
+        t_id = type_ident(ty)
+        def loop(st, fr, i):
+            if i == len(universe): return containers._finish(eng_, st, fr, dst, tgt, models.ok(UNIT))
+            tok = universe[i]
+            def call(s2, f2):
+                def after(e3, s3, f3, kd, rv):
+                    is_ok, okv, errv = models.res_parts(engine.Ctx(e3, s3, f3, None, '', (), (), None), rv)
+                    return ('forks', [(is_ok, lambda s4, f4: loop(s4, f4, i + 1)), (Not(is_ok), lambda s4, f4: containers._finish(e3, s4, f4, dst, tgt, models.err(errv)))])
+                return containers.call_closure(eng_, s2, f2, clo, (ctx.args[1], tok), after)
+            refs = And(REFS(t_id, type_ident(tok)), type_ident(tok) != t_id)
+            return ('forks', [(refs, call), (Not(refs), lambda s2, f2: loop(s2, f2, i + 1))])
+        return loop(ctx.st, ctx.fr, 0)
+    def m_value_defined(ctx): return NotImplemented
     ov = [(r'^(?:wac_types::)?ItemKind::ty$', m_ty), (r'^(?:wac_types::)?Package::ty$', m_pkg_ty), (r'^(?:wac_types::)?Package::name$', m_pkg_name),
           (r'^(?:wac_types::)?Package::key$', m_pkg_key), (r'^(?:wac_types::)?Package::instance_type$', m_pkg_instance_type),
           (r'^<wac_types::Types as Index<.*>>::index$', m_types_index),
@@ -247,7 +303,9 @@ def make_engine(chk, fns, decls, ARGS, rec):
           (r'^std::mem::take::<.*>$|^core::mem::take::<.*>$', m_take), (r'^(?:wac_types::)?ItemKind::desc$', m_desc),
           (r'^HashMap::<PackageKey, graph::PackageId>::remove::<.*>$', m_pkgmap_remove),
           (r'^wasmparser::names::ComponentName::new$', m_cname_new), (r'^wasmparser::names::ComponentName::kind$', m_cname_kind),
-          (r'^wac_types::Types::contains$', m_types_contains)]
+          (r'^wac_types::Types::contains$', m_types_contains),
+          (r'^<wac_types::Type as PartialEq>::(?:eq|ne)$', m_type_eq),
+          (r'^wac_types::Type::visit_defined_types::<.*>$', m_visit)]
     eng = chk.engine(fns, decls, overrides=ov, vec_cap=ARGS, loop_bound=12, rec_bound=rec)
     eng.atom_strings = True; eng.bitset_universe = ARGS
     def eq_hook(a, b):
@@ -255,6 +313,11 @@ def make_engine(chk, fns, decls, ARGS, rec):
         if 'Type' in t or 'ItemKind' in t or 'Key' in t: return lazy_atom(a).t == lazy_atom(b).t
         return None
     eng.eq_hook = eq_hook
+    def eq_hook2(a, b):
+        def is_ty(x): return (isinstance(x, Lazy) and x.ty and x.ty.endswith('Type')) or (isinstance(x, Enum) and x.ty.split('@')[0] in ('Type', 'ValueType'))
+        if is_ty(a) and is_ty(b) and (isinstance(a, Enum) or isinstance(b, Enum)): return type_ident(a) == type_ident(b)
+        return None
+    eng.eq_hook2 = eq_hook2; eng.type_universe = []
     return eng
 
 def live_node_arg(M_, nm):
@@ -295,19 +358,47 @@ def op_unregister(M_, eng):
     p = BitVec('arg_pidx', 64); g = BitVec('arg_pgen', 64)
     valid = Or([And(p == bv64(q), M_.pk_some[q], M_.pk_gen[q] == g) for q in range(M_.P)])
     return [Agg((p, g), 'PackageId')], [valid], {'pidx': p, 'pgen': g}
+@op('define_type')
+def op_define(M_, eng):
+    name = Lazy('arg_name', 'std::string::String'); ty = Lazy('arg_ty', 'wac_types::Type'); other = Lazy('undefined_ty', 'wac_types::DefinedTypeId')
+    eng.type_universe = [k for (l, k, v) in M_.defined] + [ty, other]
+    ids = [type_ident(x) for x in eng.type_universe] + [type_ident(M_.ik[i]) for i in range(M_.NN)]
+    # the reference relation is a strict partial order (transitive, irreflexive) on the types involved
+    pre = []
+    for a in ids: pre.append(Not(REFS(a, a)))
+    for a, b, c in itertools.permutations(ids, 3): pre.append(Implies(And(REFS(a, b), REFS(b, c)), REFS(a, c)))
+    for a, b in itertools.combinations(ids, 2): pre.append(Not(And(REFS(a, b), REFS(b, a))))
+    # the undefined type is not a key of the defined map and not the new type
+    for (l, k, v) in M_.defined: pre.append(type_ident(other) != type_ident(k))
+    pre.append(type_ident(other) != type_ident(ty))
+    return [name, ty], pre, {'name': name, 'ty': ty}
 @op('instantiate')
 def op_instantiate(M_, eng):
     p = BitVec('arg_pidx', 64); g = BitVec('arg_pgen', 64)
     valid = Or([And(p == bv64(q), M_.pk_some[q], M_.pk_gen[q] == g) for q in range(M_.P)])
     return [Agg((p, g), 'PackageId')], [valid], {'pidx': p, 'pgen': g}
 
-def run_op(chk, fns, decls, opname, NN, EE, MM, ARGS, P, rec):
+def op_fn(eng, opname):
+    c = eng.index.get(('CompositionGraph', None, opname), [])
+    if len(c) != 1: raise engine.EngineError(f'cannot find CompositionGraph::{opname}: {c}')
+    return c[0]
+
+def partitions(opname, NN, P):
+    """mutually exclusive, exhaustive case split of the pre-state/argument space; each case is explored by its own worker process"""
+    if opname in ('remove_node', 'unexport', 'export'): return [('node', i, k) for i in range(NN) for k in range(4)]
+    if opname in ('set_instantiation_argument', 'unset_instantiation_argument'): return [('inst', i, None) for i in range(NN)]
+    if opname == 'alias_instance_export': return [('inst', i, None) for i in range(NN)]
+    if opname == 'unregister_package': return [('pkg', p, k) for p in range(P) for k in range(4)]
+    if opname == 'define_type': return [('defs', a, b) for a in (0, 1) for b in (0, 1)]
+    return [None]
+
+def run_op(chk, fns, decls, opname, NN, EE, MM, ARGS, P, rec, part=None):
     eng = make_engine(chk, fns, decls, ARGS, rec)
     M_ = Model('s_', NN, EE, MM, ARGS, P)
     st = engine.State()
     gcell = st.alloc(M_.value(decls))
     args, pre_extra, argterms = OPS[opname](M_, eng)
-    fname = eng.find_fn(r'^graph::<impl at [^>]*>::' + opname + r'$')
+    fname = op_fn(eng, opname)
     fn = eng.fns[fname]; fr = engine.Frame(fn)
     vals = [Ref(gcell)] + args
     assert len(vals) == fn.nargs, (opname, len(vals), fn.nargs)
@@ -317,6 +408,12 @@ def run_op(chk, fns, decls, opname, NN, EE, MM, ARGS, P, rec):
     pre = RI(pre_view)
     for c in pre.values(): eng.assume(c)
     for c in pre_extra: eng.assume(c)
+    if part is not None:
+        what, i, k = part
+        if what == 'node': eng.assume(argterms['node'] == bv32(i)); eng.assume(M_.kind[i] == bv64(k))
+        elif what == 'inst': eng.assume(argterms['inst'] == bv32(i))
+        elif what == 'pkg': eng.assume(argterms['pidx'] == bv64(i)); eng.assume(If(M_.live[0], M_.kind[0], bv64(0)) == bv64(k))
+        elif what == 'defs': eng.assume(M_.defined[0][0] == BoolVal(bool(i))); eng.assume(M_.defined[1][0] == BoolVal(bool(k)) if len(M_.defined) > 1 else BoolVal(True))
     for p in range(P): eng.assume(Implies(M_.pk_some[p], M_.pk_gen[p] == bv64(0)))      # stated bound: live packages have generation 0
     # world import lists of packages / interface export lists are bounded by ARGS
     eng.run(st)
@@ -326,18 +423,28 @@ def body(chk):
     fns = chk.load('wac-graph'); decls = chk.decls('wac-graph')
     global IK_INSTANCE
     IK_INSTANCE = decls.enum_index('ItemKind', 'Instance')
-    NN, EE, MM, ARGS, P = chk.pick((3, 3, 2, 2, 2), (4, 4, 3, 2, 2))
+    NN, EE, MM, ARGS, P = chk.pick((3, 2, 2, 2, 2), (4, 4, 3, 2, 2))
     rec = chk.pick(2, 3)
     chk.bounds['state'] = {'node_slots': NN, 'edge_slots': EE, 'map_entries': MM, 'argument_indexes': ARGS, 'package_slots': P, 'remove_node_recursion': rec}
     only = os.environ.get('C06_ONLY')
+    chk.assumptions += ['pre-states satisfy the representation invariant RI (clauses listed in specs/c06.py) plus the stated realisability restrictions: alias nodes have a higher index than their source, argument sources are function-typed imports or aliases, live packages have generation 0',
+                        'types arena, package contents and subtype verdicts are uninterpreted; ComponentName validity is an arbitrary boolean',
+                        'define_type and register_package are not encoded (outside the claim)']
+    parts = []
     for opname in OPS:
         if only and opname != only: continue
-        chk.part(opname, check_op, chk, fns, decls, opname, NN, EE, MM, ARGS, P, rec)
+        for pt in partitions(opname, NN, P): parts.append((opname if pt is None else f'{opname}{pt}', check_op, (fns, decls, opname, NN, EE, MM, ARGS, P, rec, pt)))
+    chk.parallel(parts)
 
-def check_op(chk, fns, decls, opname, NN, EE, MM, ARGS, P, rec):
-    eng, M_, gcell, pre_view, argterms = run_op(chk, fns, decls, opname, NN, EE, MM, ARGS, P, rec)
-    outs = eng.out; chk.account(eng, [eng.find_fn(r'^graph::<impl at [^>]*>::' + opname + r'$')])
+def check_op(chk, fns, decls, opname, NN, EE, MM, ARGS, P, rec, part=None):
+    eng, M_, gcell, pre_view, argterms = run_op(chk, fns, decls, opname, NN, EE, MM, ARGS, P, rec, part)
+    tagp = '' if part is None else f' [case {part[0]}={part[1]}' + (f', kind={part[2]}' if part[2] is not None else '') + ']'
+    outs = eng.out; chk.account(eng, [op_fn(eng, opname)])
     base = list(eng.assumptions)
+    if part is not None:
+        rb, _ = chk.solve(f'{opname}{tagp}: case is non-empty', base)
+        if rb != 'sat':
+            chk.notes.append(f'{opname}{tagp}: empty case (no RI state matches)'); return
     kinds = {}
     for o in outs: kinds[o.kind] = kinds.get(o.kind, 0) + 1
     chk.notes.append(f'{opname}: {len(outs)} paths {kinds}')
@@ -345,9 +452,9 @@ def check_op(chk, fns, decls, opname, NN, EE, MM, ARGS, P, rec):
     bad = [(o, o.cond()) for o in outs if o.kind in ('panic', 'unreachable')]
     bound = [(o, o.cond()) for o in outs if o.kind == 'bound']
     if bound:
-        r, m = chk.obligation(f'{opname}: bounds sufficient (recursion / argument universe)', base + [Or([c for _, c in bound])], base=base)
+        r, m = chk.obligation(f'{opname}{tagp}: bounds sufficient (recursion / argument universe)', base + [Or([c for _, c in bound])], base=base)
         if r == 'sat': chk.notes.append(f'{opname}: some executions exceed the stated bounds (e.g. alias/dependency chains longer than {rec}); they are outside the claim')
-    r, m = chk.obligation(f'{opname}: no panic from any RI state with live identifiers', base + [Or([c for _, c in bad]) if bad else BoolVal(False)], base=base)
+    r, m = chk.obligation(f'{opname}{tagp}: no panic from any RI state with live identifiers', base + [Or([c for _, c in bad]) if bad else BoolVal(False)], base=base)
     if r == 'sat':
         hit = [o for o, c in bad if ev_bool(m, c)][0]
         report(chk, eng, decls, M_, opname, argterms, m, f'panic: {hit.site[1] if hit.site else hit.value}', 'panic', ARGS, P)
@@ -356,14 +463,25 @@ def check_op(chk, fns, decls, opname, NN, EE, MM, ARGS, P, rec):
     for o in outs:
         if o.kind != 'ret': continue
         post = RI(View(eng, o.st, o.st.heap[gcell], decls, ARGS, P))
-        for cname, f in post.items(): posts.append((cname, o, And(o.cond(), Not(f))))
+        for cname, f in post.items():
+            if cname.startswith('!'): continue
+            posts.append((cname, o, And(o.cond(), Not(f))))
+    for o in outs:
+        if o.kind != 'ret': continue
+        ef = effect(opname, M_, decls, o, View(eng, o.st, o.st.heap[gcell], decls, ARGS, P), argterms)
+        if ef is not None: posts.append(('effect', o, And(o.cond(), Not(ef))))
     by_clause = {}
     for cname, o, c in posts: by_clause.setdefault(cname, []).append((o, c))
     for cname, lst in by_clause.items():
-        r, m = chk.obligation(f'{opname}: RI[{cname}] preserved', base + [Or([c for _, c in lst])], base=base)
+        title = f'{opname}{tagp}: RI[{cname}] preserved' if cname != 'effect' else f'{opname}{tagp}: documented effect / error condition'
+        r, m = chk.obligation(title, base + [Or([c for _, c in lst])], base=base)
         if r == 'sat':
-            report(chk, eng, decls, M_, opname, argterms, m, f'invariant `{cname}` broken after {opname}', cname, ARGS, P)
-    if not [o for o in outs if o.kind == 'ret']: raise Inconclusive(f'{opname}: no execution returns (vacuous)')
+            hit = [o for o, c in lst if ev_bool(m, c)][0]
+            if cname == 'effect':
+                report_effect(chk, eng, decls, M_, opname, argterms, m, hit, ARGS, P)
+            else:
+                report(chk, eng, decls, M_, opname, argterms, m, f'invariant `{cname}` broken after {opname}', cname, ARGS, P)
+    if not [o for o in outs if o.kind == 'ret'] and part is None: raise Inconclusive(f'{opname}: no execution returns (vacuous)')
 
 def report(chk, eng, decls, M_, opname, argterms, m, what, clause, ARGS, P):
     from specs.c06_realise import realise, describe
@@ -409,9 +527,148 @@ def resolve_names(M_, m, opname, argterms, decls):
             ln = ev(iface.len()).as_long(); want = ev(lazy_atom(argterms['name']).t).as_long()
             for k in range(min(ln, 2)):
                 if ev(lazy_atom(iface.kid(f'[{k}].k')).t).as_long() == want: out['export'] = f'e{k}'
+        if opname == 'define_type':
+            ty = type_ident(argterms['ty'])
+            out['deps'] = [i for i in range(M_.NN) if z3.is_true(ev(And(M_.live[i], M_.kind[i] == bv64(DEF), REFS(ty, type_ident(M_.ik[i])))))]
+            out['rdeps'] = [i for i in range(M_.NN) if z3.is_true(ev(And(M_.live[i], M_.kind[i] == bv64(DEF), REFS(type_ident(M_.ik[i]), ty))))]
+            out['same_as'] = [i for i in range(M_.NN) if z3.is_true(ev(And(M_.live[i], M_.kind[i] == bv64(DEF), type_ident(M_.ik[i]) == ty)))]
     except Exception as e:
         out['error'] = str(e)
     return out
+
+# ---------------------------------------------------------------------------- intended effects (beyond RI)
+
+def err_name(v):
+    """variant name of the error in an Err(..) result built by the MIR, or None"""
+    if isinstance(v, Enum) and 'Err' in v.vars:
+        e = v.vars['Err'][0]
+        if isinstance(e, Enum) and e.vars: return list(e.vars)[0]
+        return '?'
+    return None
+
+def arg_index_terms(M_, decls, inst, name):
+    """[(guard, k)] : the argument name is the k-th import of the world of the package instantiated by node `inst`"""
+    wi = [n for n, t in decls.structs['World'][1]].index('imports')
+    out = []
+    for i in range(M_.NN):
+        for p in range(M_.P):
+            world = M_.gtypes.kid(f'[{M_.pkg[p].kid("!world").name}]').kid(str(wi))
+            for k in range(M_.ARGS):
+                key = world.kid(f'[{k}].k')
+                out.append((And(inst == bv32(i), M_.pidx[i] == bv64(p), ULT(bv64(k), world.len()), lazy_atom(key).t == lazy_atom(name).t), k))
+    return out
+
+def effect(opname, M_, decls, o, post, argterms):
+    """formula that must hold on outcome o (a `ret` outcome) given the post-state view; None when no effect is specified"""
+    v = o.value; E = [post.edge(j) for j in range(post.ne)]
+    is_ok = isinstance(v, Enum) and 'Ok' in v.vars
+    if opname == 'set_instantiation_argument':
+        inst, src, name = argterms['inst'], argterms['src'], argterms['name']
+        if is_ok:
+            # Ok => the argument edge (src -> inst, index of `name`) exists and is recorded as satisfied
+            alts = []
+            for g, k in arg_index_terms(M_, decls, inst, name):
+                has = Or([And(l, a == src, b == inst, kd == bv64(E_ARG), idx == bv64(k)) for (l, a, b, kd, idx) in E if idx is not None])
+                alts.append(And(g, has))
+            return Or(alts)
+        en = err_name(v)
+        if en == 'NodeIsNotAnInstantiation': return post.sel(inst, post.kind, bv64(99)) != bv64(INST)
+        if en == 'InvalidArgumentName': return Not(Or([g for g, k in arg_index_terms(M_, decls, inst, name)]))
+        if en == 'ArgumentAlreadyPassed':
+            alts = []
+            for g, k in arg_index_terms(M_, decls, inst, name):
+                other = Or([And(l, a != src, b == inst, kd == bv64(E_ARG), idx == bv64(k)) for (l, a, b, kd, idx) in E if idx is not None])
+                alts.append(And(g, other))
+            return Or(alts)
+        return None
+    if opname == 'unset_instantiation_argument':
+        inst, src, name = argterms['inst'], argterms['src'], argterms['name']
+        if is_ok:
+            alts = []
+            for g, k in arg_index_terms(M_, decls, inst, name):
+                gone = Not(Or([And(l, a == src, b == inst, kd == bv64(E_ARG), idx == bv64(k)) for (l, a, b, kd, idx) in E if idx is not None]))
+                alts.append(And(g, gone))
+            return Or(alts)
+        return None
+    if opname == 'export':
+        node, name = argterms['node'], argterms['name']
+        exps = post.map_entries(post.exports)
+        if is_ok:
+            return And(Or([And(l, atom(k) == lazy_atom(name).t, n == node) for (l, k, n) in exps]),
+                       post.sel(node, lambda i: And(post.hasexp(i), post.expname(i) == lazy_atom(name).t) if post.expname(i) is not None else BoolVal(False), BoolVal(False)))
+        if err_name(v) == 'ExportAlreadyExists':
+            return Or([And(l, lazy_atom(k).t == lazy_atom(name).t) for (l, k, n) in M_.exports])
+        return None
+    if opname == 'unexport':
+        node = argterms['node']
+        exps = post.map_entries(post.exports)
+        if is_ok: return And(Not(Or([And(l, n == node) for (l, k, n) in exps])), Not(post.sel(node, post.hasexp, BoolVal(False))))
+        return post.sel(node, post.kind, bv64(99)) == bv64(DEF)
+    if opname == 'remove_node':
+        node = argterms['node']
+        # the node is gone, and so is every alias / dependant of it (one level is enough: the invariant closes dependencies transitively and
+        # the recursion handles aliases); nothing that was not reachable that way disappears
+        gone = Not(post.sel(node, post.live, BoolVal(False)))
+        pre_edges = [(M_.elive[j], M_.src[j], M_.dst[j], M_.ek[j]) for j in range(M_.EE)]
+        cs = [gone]
+        for i in range(M_.NN):
+            child = Or([And(l, a == node, b == bv32(i), kd != bv64(E_ARG)) for (l, a, b, kd) in pre_edges]) if pre_edges else BoolVal(False)
+            cs.append(Implies(And(M_.live[i], child), Not(post.live(i))))
+            reach = Or([node == bv32(i), child] + [And(l, b == bv32(i), kd != bv64(E_ARG), Or([And(l2, a2 == node, b2 == a, kd2 != bv64(E_ARG)) for (l2, a2, b2, kd2) in pre_edges]))
+                                                     for (l, a, b, kd) in pre_edges])
+            cs.append(Implies(And(M_.live[i], Not(reach)), post.live(i)))
+        return And(cs)
+    if opname == 'define_type':
+        name, ty = argterms['name'], argterms['ty']
+        defs = post.map_entries(post.defined); exps = post.map_entries(post.exports)
+        if is_ok:
+            return And(Or([And(l, type_ident(k) == type_ident(ty)) for (l, k, n) in defs]), Or([And(l, atom(k) == lazy_atom(name).t) for (l, k, n) in exps]))
+        en = err_name(v)
+        if en == 'TypeAlreadyDefined': return Or([And(l, type_ident(k) == type_ident(ty)) for (l, k, n) in M_.defined])
+        if en == 'ExportConflict': return Or([And(l, lazy_atom(k).t == lazy_atom(name).t) for (l, k, n) in M_.exports])
+        return None
+    if opname == 'import':
+        name = argterms['name']
+        imps = post.map_entries(post.imports)
+        if is_ok: return Or([And(l, atom(k) == lazy_atom(name).t) for (l, k, n) in imps])
+        if err_name(v) == 'ImportAlreadyExists': return Or([And(l, lazy_atom(k).t == lazy_atom(name).t) for (l, k, n) in M_.imports])
+        return None
+    return None
+
+def report_effect(chk, eng, decls, M_, opname, argterms, m, hit, ARGS, P):
+    """the operation returned normally but did not have its documented effect (or returned an error whose condition does not hold)"""
+    from specs.c06_realise import realise, describe
+    desc = describe(M_, m, argterms)
+    extra = resolve_names(M_, m, opname, argterms, decls)
+    script, final = realise(M_, m, opname, argterms, extra)
+    outcome = 'Ok' if (isinstance(hit.value, Enum) and 'Ok' in hit.value.vars) or not isinstance(hit.value, Enum) else f'Err({err_name(hit.value)})'
+    if script is None:
+        raise Inconclusive(f'{opname}: effect counterexample ({outcome}) has no realisation: {final}; pre-state {desc}')
+    # observe the effect natively: arguments / exports / imports after the operation
+    probe = list(script[:final + 1])
+    if opname in ('set_instantiation_argument', 'unset_instantiation_argument'): probe.append(['args', script[final][1]])
+    if opname in ('export', 'unexport'): probe.append(['get_export', script[final][2] if opname == 'export' else 'n0'])
+    probe.append(['imports'])
+    nat = chk.native({'op': 'graph', 'steps': probe})
+    res = nat.get('results', [])
+    opres = res[final] if len(res) > final else None
+    ok_native = None
+    if opname == 'set_instantiation_argument' and opres and opres.get('ok'):
+        args = res[final + 1].get('args', []) if len(res) > final + 1 else []
+        want = script[final][2]
+        ok_native = any(a[0] == want for a in args)
+        if not ok_native:
+            chk.finding('set_instantiation_argument-no-effect', f'set_instantiation_argument returned Ok but the argument `{want}` is not recorded: arguments = {args}  [script: {json.dumps(probe)}]', {'op': 'graph', 'steps': probe})
+            return
+    if opname == 'unset_instantiation_argument' and opres and opres.get('ok'):
+        args = res[final + 1].get('args', []) if len(res) > final + 1 else []
+        want = script[final][2]
+        if any(a[0] == want for a in args):
+            chk.finding('unset_instantiation_argument-no-effect', f'unset_instantiation_argument returned Ok but `{want}` is still passed: {args}  [script: {json.dumps(probe)}]', {'op': 'graph', 'steps': probe}); return
+    inv = nat.get('invariants') or []
+    if len(inv) > final and inv[final]:
+        chk.finding(classify(opname, 'effect', '; '.join(inv[final])), f'{opname}: {inv[final]}  [script: {json.dumps(probe)}]', {'op': 'graph', 'steps': probe}); return
+    raise Inconclusive(f'{opname}: effect counterexample ({outcome}) does not reproduce natively: {json.dumps(nat)[:500]}; script {json.dumps(probe)}; pre-state {desc}')
 
 def classify(opname, clause, broken):
     b = broken
